@@ -73,7 +73,7 @@ func c01R2(p *core.Prog, r *core.Report) {
 				cls = append(cls, s)
 			}
 			sort.Strings(cls)
-			key := "server.(*LockDB).doLock: true-path{" + strings.Join(cls, " && ") + "}"
+			key := "server.(*LockDB).doLock: true-path{" + stable(strings.Join(cls, " && ")) + "}"
 			pos := x.Pos()
 			if rets[0].S != "true" {
 				r.Violate(rule, key, pos, "doLock returns a non-constant result "+rets[0].S+"; admission cannot be classified", x.St.Trace)
